@@ -84,9 +84,17 @@ def make_spec(g):
         for k in range(1, len(parts)):
             if '/'.join(parts[:k]) not in tests:
                 tests.append('/'.join(parts[:k]))
+    force_skip = []
+    if r.random() < 0.2:
+        # two skipped tests whose names are related (`x` and `x#01`, `TestA` and `TestAB`) around a
+        # descendant of the shorter one: the skip list is searched for ANY ancestor, whatever else it holds
+        fam = r.choice([['TestA', 'TestA/x', 'TestA/x#01', 'TestA/x/deep'], ['TestA', 'TestAB', 'TestA/x', 'TestAB/x', 'TestA/y'],
+                        ['TestB', 'TestB/A_case', 'TestB/sub', 'TestA', 'TestA/x', 'TestA/x/deep']])
+        tests = sorted(set(tests) | set(fam))
+        force_skip = r.choice([fam[1:3], [fam[0], fam[1]], [fam[1]], fam[1:3] + [fam[-1]]])
     tests = sorted(set(tests))
     pattern = r.choice(PATTERNS)
-    skipped = [t for t in tests if r.random() < 0.2]
+    skipped = sorted(set([t for t in tests if r.random() < 0.2] + force_skip))
     ncalls = {t: r.choice([1, 1, 2]) for t in tests}
     return dict(tests=tests, pattern=pattern, skipped=skipped, ncalls=ncalls,
                 mode=r.choice([(False, 'clean'), (False, 'true'), (False, ''), (True, 'clean')]),
@@ -115,7 +123,8 @@ def render(tag, spec):
         for k in range(1, spec['ncalls'][t] + 1):
             (entries2 if (spec['second_file'] and t.startswith('TestB')) else entries1).append((t, k))
     # a stale slot (ordinal 9) of tests that DO run: a skip of `TestA` must not protect `TestAB - 9`
-    stale_sib = [(t, 9) for t in tests if runs[t] and any(t.startswith(s) and not (t == s or t.startswith(s + '/')) for s in spec['skipped'])]
+    stale_sib = [(t, 9) for t in tests if runs[t] and (any(t.startswith(s) and not (t == s or t.startswith(s + '/')) for s in spec['skipped'])
+                                                        or rr.random() < 0.3)]
     entries1 += [e for e in stale_sib if not (spec['second_file'] and e[0].startswith('TestB'))]
     rr.shuffle(entries1)
     if entries1:
